@@ -43,9 +43,14 @@ func GenFor(prop string, rng *rand.Rand) *sim.Scenario {
 	at := func() (int, string) { return 1 + rng.Intn(n), states[rng.Intn(len(states))] }
 	add := func(action string) {
 		st, state := at()
-		s.Events = append(s.Events, sim.Injected{AtStep: st, AtState: state, Action: action})
+		s.Events = append(s.Events, sim.Injected{AtStep: st, AtState: state, Action: action, Immediate: rng.Intn(2) == 0})
 	}
 	exits := []string{"rollback", "delete", "disable", "v3"}
+	finTasks := []string{"*", "*", "FinalisingStepRouteTrafficToStable", "FinalisingStepRouteTrafficToNew", "RestoreStableService", "RemoveCanaryService", "ResumeWorkload", "ReleaseWorkloadControl"}
+	// a second user action that arrives while a cleanup sequence (success, rollback, supersession) is in flight
+	addDuringCleanup := func() {
+		s.Events = append(s.Events, sim.Injected{AtFinalising: finTasks[rng.Intn(len(finTasks))], Action: []string{"delete", "disable"}[rng.Intn(2)], Immediate: rng.Intn(2) == 0})
+	}
 	// forward jumps over at least one step need plans with >= 3 steps: make them common for the gate / traffic properties
 	if (prop == "C02" || prop == "C03" || prop == "C01" || prop == "C11") && rng.Intn(4) == 0 {
 		for len(s.Steps) < 3 {
@@ -60,10 +65,45 @@ func GenFor(prop string, rng *rand.Rand) *sim.Scenario {
 	if (prop == "C02" || prop == "C03" || prop == "C11" || prop == "C01") && s.RolloutID && len(s.Steps) >= 2 && rng.Intn(2) == 0 {
 		s.Events = append(s.Events, sim.Injected{AtStep: 2 + rng.Intn(len(s.Steps)-1), AtState: []string{"StepUpgrade", "StepUpgrade", "StepPaused"}[rng.Intn(3)], Action: "rolloutid"})
 	}
+	// operators may raise --partition-percent-limit: partition-style steps whose percentage rounds up to every replica
+	// then carry traffic too, which is where the "un-pin the stable Service before the last stable pod goes" rule matters
+	if (s.Kind == "cloneset" && s.Style == "partition") && s.HasTraffic() && (prop == "C04" || prop == "C03" || prop == "C10" || prop == "C05" || prop == "C06") && rng.Intn(6) == 0 {
+		s.PartitionLimit = 100
+		R := int(s.Replicas)
+		// smallest percentage that still rounds up to R pods, plus a little
+		p := (R-1)*100/R + 1 + rng.Intn(3)
+		if p > 99 {
+			p = 99
+		}
+		s.Steps = []sim.Step{
+			{Replicas: fmt.Sprintf("%d%%", 10+rng.Intn(30)), Traffic: 10 + rng.Intn(30), Pause: -1},
+			{Replicas: fmt.Sprintf("%d%%", p), Traffic: 50 + rng.Intn(45), Pause: -1},
+			{Replicas: "100%", Traffic: 100, Pause: -1},
+		}
+		n = len(s.Steps)
+	}
+	// rollback in batches: the plan is walked a second time towards the old revision (CloneSet, no traffic routing)
+	if s.Kind == "cloneset" && s.Style == "partition" && (prop == "C02" || prop == "C01" || prop == "C11" || prop == "C05" || prop == "C07" || prop == "C06" || prop == "C19") && rng.Intn(8) == 0 {
+		s.RollbackInBatch = true
+		s.Provider = "none"
+		for i := range s.Steps {
+			s.Steps[i].Traffic, s.Steps[i].Match = -1, ""
+		}
+		for len(s.Steps) < 3 {
+			last := s.Steps[len(s.Steps)-1]
+			s.Steps = append(s.Steps, sim.Step{Replicas: last.Replicas, Traffic: -1, Pause: -1})
+		}
+		n = len(s.Steps)
+		s.Events = append(s.Events, sim.Injected{AtStep: 2 + rng.Intn(n-1), AtState: states[rng.Intn(3)], Action: "rollback", Immediate: rng.Intn(2) == 0})
+		return s
+	}
 	switch prop {
 	case "C05", "C18":
 		if rng.Intn(5) > 0 {
 			add(exits[rng.Intn(len(exits))])
+		}
+		if rng.Intn(4) == 0 {
+			addDuringCleanup()
 		}
 		if rng.Intn(6) == 0 {
 			s.Pre = append(s.Pre, []string{"plan-drop-last", "plan-add-step", "plan-bump"}[rng.Intn(3)])
@@ -72,7 +112,22 @@ func GenFor(prop string, rng *rand.Rand) *sim.Scenario {
 			}
 		}
 	case "C10":
-		add([]string{"rollback", "v3", "rollback"}[rng.Intn(3)])
+		// the window right after the cursor moved into a step without traffic, while the previous step's routes are
+		// still being withdrawn, is narrow: aim at it in a third of the cases
+		aimed := false
+		if rng.Intn(3) == 0 {
+			for k := 2; k <= n; k++ {
+				prev, cur := s.Steps[k-2], s.Steps[k-1]
+				if (prev.Traffic >= 0 || prev.Match != "") && cur.Traffic < 0 && cur.Match == "" {
+					s.Events = append(s.Events, sim.Injected{AtStep: k, AtState: []string{"BeforeStepUpgrade", "BeforeStepUpgrade", "StepUpgrade"}[rng.Intn(3)], Action: []string{"rollback", "v3", "rollback"}[rng.Intn(3)], Immediate: true})
+					aimed = true
+					break
+				}
+			}
+		}
+		if !aimed {
+			add([]string{"rollback", "v3", "rollback"}[rng.Intn(3)])
+		}
 	case "C02":
 		switch rng.Intn(5) {
 		case 0:
@@ -84,13 +139,16 @@ func GenFor(prop string, rng *rand.Rand) *sim.Scenario {
 		}
 		s.ApproveLag = rng.Intn(12)
 	case "C01":
-		switch rng.Intn(5) {
+		switch rng.Intn(6) {
 		case 0:
 			add(fmt.Sprintf("scale:%d", 1+rng.Intn(14)))
 		case 1:
 			add(fmt.Sprintf("jump:%d", 1+rng.Intn(n)))
 		case 2:
 			add("pause")
+		case 3:
+			// continuous release: the old BatchRelease is removed and the plan restarts for v3
+			add("v3")
 		}
 	case "C09":
 		// plan edits that validation allows while the Rollout is idle, then a deletion / disabling / release
@@ -107,6 +165,9 @@ func GenFor(prop string, rng *rand.Rand) *sim.Scenario {
 			add(fmt.Sprintf("jump:%d", 1+rng.Intn(n)))
 		}
 	default:
+		if rng.Intn(10) == 0 {
+			addDuringCleanup()
+		}
 		switch rng.Intn(8) {
 		case 0:
 			add(exits[rng.Intn(len(exits))])
